@@ -26,8 +26,14 @@ def run(patch):
         shutil.rmtree(d, ignore_errors=True)
 
 def main():
+    args = list(sys.argv[1:])
+    out_name = 'catch_matrix.json'
+    if '--out' in args:
+        i = args.index('--out')
+        out_name = args[i + 1]
+        del args[i:i + 2]
     patches = []
-    for a in [os.path.abspath(x) for x in sys.argv[1:]]:
+    for a in [os.path.abspath(x) for x in args]:
         if os.path.isdir(a):
             for root, _, files in os.walk(a):
                 if 'patch.diff' in files:
@@ -35,7 +41,7 @@ def main():
         else:
             patches.append(a)
     patches.sort()
-    res_file = os.path.join(HERE, 'catch_matrix.json')
+    res_file = os.path.join(HERE, out_name)
     res = json.load(open(res_file)) if os.path.exists(res_file) else {}
     with ThreadPoolExecutor(max_workers=4) as ex:
         for patch, out in ex.map(run, patches):
